@@ -469,7 +469,7 @@ impl Engine {
             self.stats.probe("fee_withdraw_one_above_accrued");
         }
         if !res.ok {
-            if allowed && !res.env_fault && !res.panicked && self.m.swept == 0 {
+            if allowed && !res.env_fault && !res.panicked && self.m.swept == 0 && !self.m.reckless {
                 if res.err.contains("insufficient funds") {
                     self.v("C02", "fee_withdraw_paid_in_full", format!("FeeWithdraw({}) of accrued {} failed for lack of funds", amount, self.m.fees));
                 } else {
